@@ -203,8 +203,16 @@ func vDivCase(cs vRNSCase, level int, round, ntt bool, nb int, id string) {
 func VerifH_C02_KernelContracts() {
 	vConfig("backend", "int")
 	seen := map[uint64]bool{}
+	var all []uint64
 	for _, cs := range VerifSetup_RNSChains(vTier()) {
-		for _, q := range cs.Moduli {
+		all = append(all, cs.Moduli...)
+	}
+	for _, cs := range VerifSetup_BEChains(vTier()) {
+		all = append(all, cs.Q...)
+		all = append(all, cs.P...)
+	}
+	{
+		for _, q := range all {
 			if seen[q] {
 				continue
 			}
